@@ -5,7 +5,10 @@ package main
 
 import (
 	"errors"
+	"fmt"
 	"io"
+	"runtime"
+	"strings"
 
 	"github.com/tuneinsight/lattigo/v6/utils/buffer"
 )
@@ -45,6 +48,111 @@ func (w *watchReader) Peek(n int) ([]byte, error) {
 	return s, err
 }
 func (w *watchReader) Discard(n int) (int, error) { k, err := w.b.Discard(n); w.note(k); return k, err }
+
+// traceReader also behaves exactly like the buffer.Reader it wraps and attributes what happens to the decoder
+// function that is consuming the stream at that moment - deterministically, from the call stack of the reader
+// calls themselves (nothing here depends on garbage collection, profiles or timing):
+//   - owners: which library function (innermost frame outside utils/buffer) consumed each byte range;
+//   - allocation jumps: when more than `limit` bytes were allocated between two consecutive reader calls, the
+//     function that consumed the preceding bytes (i.e. read the length) is the one that made the allocation;
+//     the reader then stops the decode by panicking with an allocEvent.
+type traceReader struct {
+	r      buffer.Reader
+	pos    int
+	limit  uint64 // 0: no allocation watch
+	mark   uint64
+	last   string
+	record bool
+	segs   []ownerSeg
+	idle   int
+}
+
+type ownerSeg struct {
+	Lo, Hi int // byte range [Lo,Hi) of the encoding
+	Fn     string
+}
+
+type allocEvent struct {
+	site  string
+	bytes uint64
+}
+
+func (e allocEvent) String() string {
+	return fmt.Sprintf("%d MiB allocated by %s between two reads of the stream", e.bytes>>20, e.site)
+}
+
+func newTraceReader(r buffer.Reader, limit uint64, record bool) *traceReader {
+	t := &traceReader{r: r, limit: limit, record: record}
+	if limit > 0 {
+		t.mark = heapAllocs()
+	}
+	return t
+}
+
+// decoderFrame: innermost frame of the library outside utils/buffer (whose functions are the primitives every
+// decoder reads its fields with).
+func decoderFrame() string {
+	pcs := make([]uintptr, 48)
+	n := runtime.Callers(3, pcs)
+	frames := runtime.CallersFrames(pcs[:n])
+	for {
+		f, more := frames.Next()
+		if strings.Contains(f.Function, "tuneinsight/lattigo") && !strings.Contains(f.Function, "/utils/buffer.") {
+			return normFunc(f.Function)
+		}
+		if !more {
+			return ""
+		}
+	}
+}
+
+func (t *traceReader) before() {
+	if t.limit == 0 {
+		return
+	}
+	if cur := heapAllocs(); cur-t.mark > t.limit {
+		panic(allocEvent{site: t.last, bytes: cur - t.mark})
+	}
+}
+
+func (t *traceReader) after(consumed, got int) {
+	if consumed > 0 {
+		fn := decoderFrame()
+		t.last = fn
+		if t.record {
+			t.segs = append(t.segs, ownerSeg{t.pos, t.pos + consumed, fn})
+		}
+		t.pos += consumed
+	}
+	if got > 0 {
+		t.idle = 0
+	} else if t.idle++; t.idle > 256 {
+		panic(noProgress{})
+	}
+	if t.limit > 0 {
+		t.mark = heapAllocs()
+	}
+}
+
+func (t *traceReader) Read(p []byte) (int, error) {
+	t.before()
+	n, err := t.r.Read(p)
+	t.after(n, n)
+	return n, err
+}
+func (t *traceReader) Size() int { return t.r.Size() }
+func (t *traceReader) Peek(n int) ([]byte, error) {
+	t.before()
+	s, err := t.r.Peek(n)
+	t.after(0, len(s))
+	return s, err
+}
+func (t *traceReader) Discard(n int) (int, error) {
+	t.before()
+	k, err := t.r.Discard(n)
+	t.after(k, k)
+	return k, err
+}
 
 // ---------------------------------------------------------------------------------------------
 // readers
